@@ -1,4 +1,36 @@
-(* placeholder until the composition theorems are in place *)
-From GT Require Import Validate.
-Example C02_pending : True. Proof. exact I. Qed.
-Print Assumptions C02_pending.
+(* C02 — every operation that violates an implemented rule is rejected. *)
+From GT Require Import Visitor Validate.
+From GTS Require Import Annot WfSchema SpecRules SpecValid.
+From GTP Require Import C07_position_proofs C02_proofs.
+
+(* The full statement (kept visible): *)
+Definition C02_statement : Prop := forall s d r,
+  wf_schema s = true -> doc_types_proper d = true -> violated r s d = true ->
+  exists es, validate s d default_plan = Ok es /\ es <> [].
+
+(* ADJUSTED: when the violated rule is VariablesInAllowedPosition, additional hypothesis
+   [defaults_const d] (C07_position_proofs.v: no variable occurs inside the default value of a
+   variable definition), under which that rule's equivalence is proved.  Nothing is added for
+   the other rules. *)
+
+(* What is proved: a document violating any rule other than field merging is never accepted
+   (validate does not return Ok []); completeness of the merge rule is C05 (partial), and that
+   the merge rule never exhausts its fuel is C03 (partial), hence "not accepted" instead of
+   "returns a non-empty error list". *)
+Theorem C02_partial : forall s d r,
+  wf_schema s = true -> doc_types_proper d = true ->
+  r <> R_OverlappingFieldsCanBeMerged -> violated r s d = true ->
+  (r = R_VariablesInAllowedPosition -> defaults_const d = true) ->
+  validate s d default_plan <> Ok [].
+Proof. exact violation_rejected. Qed.
+Print Assumptions C02_partial.
+
+(* and when the merge rule does not exhaust its fuel the result is a non-empty error list *)
+Theorem C02_partial_errors : forall s d r,
+  wf_schema s = true -> doc_types_proper d = true ->
+  r <> R_OverlappingFieldsCanBeMerged -> violated r s d = true ->
+  (r = R_VariablesInAllowedPosition -> defaults_const d = true) ->
+  r_oof (snd (run_rule R_OverlappingFieldsCanBeMerged s d ctx0)) = false ->
+  exists es, validate s d default_plan = Ok es /\ es <> [].
+Proof. exact violation_rejected_errors. Qed.
+Print Assumptions C02_partial_errors.
